@@ -21,7 +21,7 @@ use rustic_core::{PruneOptions, RusticResult};
 
 use super::c02::hist::{check_errors_retry, source};
 use super::c02::parse_opts;
-use super::c03::{abstract_tokens, cfg, do_backup, union};
+use super::c03::{abstract_tokens, all_index, cfg, do_backup, union};
 use crate::repo::{self, LogOp, MemBackend, MemSource, RepoHandle};
 use crate::util::{Rng, Stats, errkind, guarded};
 
@@ -103,6 +103,8 @@ pub struct Run {
     pub n_a: usize,
     /// storage operations of B (only counted when B is gated)
     pub n_b: usize,
+    /// what the history really contained (`bfp`: stats keys, see `scenario_fp`)
+    pub notes: Vec<&'static str>,
 }
 
 /// A command running on its own thread over its own `MemBackend` handle (same store, same log, own gate) that parks
@@ -221,7 +223,7 @@ fn scenario(kind: &str, seed: u64, k: usize, j: Option<usize>, mode: Mode) -> Re
         if mode == Mode::Exec {
             oracle?;
         }
-        return Ok(Run { pre: vec![], run: vec![], follow: vec![], n_a, n_b });
+        return Ok(Run { pre: vec![], run: vec![], follow: vec![], n_a, n_b, notes: vec![] });
     }
     // `generate`: the trace is judged by the Lean driver, whatever the oracles say
     let after_all = union(&union(&union(&mid, &mid2), &after_run), &pre.h.be.store());
@@ -230,7 +232,7 @@ fn scenario(kind: &str, seed: u64, k: usize, j: Option<usize>, mode: Mode) -> Re
     let n_run = log_run.iter().filter(|o| o.applied).count();
     let (p, mut toks) = abstract_tokens(&pre.h, &before, &after_all, &log)?;
     let follow = toks.split_off(n_run);
-    Ok(Run { pre: p, run: toks, follow, n_a, n_b })
+    Ok(Run { pre: p, run: toks, follow, n_a, n_b, notes: vec![] })
 }
 
 // ---------------------------------------------------------------------------------------------------------
@@ -251,14 +253,29 @@ pub struct Fp {
     /// the plan times lie more than keep-delete after the creation of the packs
     pub old_packs: bool,
     pub no_resize: bool,
+    /// the follow-up prune runs keep-delete + 1 h after the (last) marking prune — the marks it meets are OLDER than keep-delete;
+    /// what the late-finishing backup's snapshot needs must be recovered all the same (else: one hour after, marks young)
+    pub late_followup: bool,
+    /// ANOTHER backup (different content: a second small index file and a snapshot of its own) runs completely after the first
+    /// prune, before the second one (or, with one prune, before the parked backup resumes): the second prune then has two
+    /// small index files to merge and REWRITES the index file that lists the still-marked packs (`filter_index_files`)
+    pub mid_backup: bool,
+    /// with `forget_all`, two prunes and ≥ 2 snapshots: only the newest snapshot is forgotten before the first prune, the others
+    /// BETWEEN the two prunes — the second prune then marks further packs and (must-modify) rewrites index files, among them the
+    /// one listing the packs the first prune marked, which stay marked (no effect otherwise)
+    pub staged_forget: bool,
 }
 
 impl Fp {
     pub fn code(&self) -> u64 {
-        (self.n_snaps - 1) + 3 * (u64::from(self.forget_all) + 2 * (self.a_new + 3 * ((self.prunes - 1) + 2 * (u64::from(self.old_packs) + 2 * u64::from(self.no_resize)))))
+        (self.n_snaps - 1)
+            + 3 * (u64::from(self.forget_all)
+                + 2 * (self.a_new
+                    + 3 * ((self.prunes - 1) + 2 * (u64::from(self.old_packs) + 2 * (u64::from(self.no_resize) + 2 * (u64::from(self.late_followup) + 2 * (u64::from(self.mid_backup) + 2 * u64::from(self.staged_forget))))))))
     }
+    /// (codes below 144 are the scenarios of the earlier rounds: follow-up one hour later, no backup between the prunes)
     pub fn from_code(c: u64) -> Option<Self> {
-        if c >= 144 {
+        if c >= 1152 {
             return None;
         }
         let (n, c) = (c % 3 + 1, c / 3);
@@ -266,16 +283,48 @@ impl Fp {
         let (a, c) = (c % 3, c / 3);
         let (p, c) = (c % 2 + 1, c / 2);
         let (o, c) = (c % 2 == 1, c / 2);
-        Some(Self { n_snaps: n, forget_all: f, a_new: a, prunes: p, old_packs: o, no_resize: c % 2 == 1 })
+        let (r, c) = (c % 2 == 1, c / 2);
+        let (l, c) = (c % 2 == 1, c / 2);
+        let (m, c) = (c % 2 == 1, c / 2);
+        Some(Self { n_snaps: n, forget_all: f, a_new: a, prunes: p, old_packs: o, no_resize: r, late_followup: l, mid_backup: m, staged_forget: c % 2 == 1 })
     }
 }
 
-fn prune_at_with(h: &RepoHandle, secs: i64, no_resize: bool) -> RusticResult<()> {
+/// what a prune planned for the packs it found marked: (recover, keep marked, remove)
+#[derive(Clone, Copy, Default, Debug)]
+struct Marked {
+    recover: u64,
+    keep: u64,
+    remove: u64,
+}
+
+fn prune_at_with(h: &RepoHandle, secs: i64, no_resize: bool) -> RusticResult<Marked> {
     let r = h.open()?;
     let o = parse_opts(&format!("0,0,{KD},000{}000,u,p0", u8::from(no_resize))).unwrap().opts;
     let z = Timestamp::from_second(secs).unwrap().to_zoned(TimeZone::UTC);
     let rep = hook::plan_at(&r, &o, z)?;
-    r.prune(&o, rep.plan)
+    let d = rep.plan.stats.packs_to_delete;
+    let m = Marked { recover: d.recover, keep: d.keep, remove: d.remove };
+    r.prune(&o, rep.plan)?;
+    Ok(m)
+}
+
+/// the source of "another client": content unrelated to `source(seed, _)`; every file carries other times than any file of
+/// `source(seed, _)` (same paths: the parent-based change detection of `backup` must see that the content differs)
+fn other_source(seed: u64) -> MemSource {
+    let mut s = source(seed ^ 0x5a5a_5a5a, 7, None);
+    for e in &mut s.entries {
+        if matches!(e.kind, repo::SrcKind::File(_)) {
+            e.mtime_s += 100_000;
+            e.ctime_s = e.mtime_s;
+        }
+    }
+    s
+}
+
+/// ids of the index files that list packs marked for deletion
+fn marking_index_files(h: &RepoHandle) -> Vec<rustic_core::Id> {
+    all_index(h, &h.be.store()).map(|v| v.into_iter().filter(|(_, f)| !f.packs_to_delete.is_empty()).map(|(id, _)| id).collect()).unwrap_or_default()
 }
 
 fn scenario_fp(seed: u64, k: usize, fp: Fp, mode: Mode) -> Result<Run, String> {
@@ -304,31 +353,69 @@ fn scenario_fp(seed: u64, k: usize, fp: Fp, mode: Mode) -> Result<Run, String> {
     });
     wait_parked(&ga);
     let mid = h.be.store();
-    // meanwhile: forget, prune (marks what only the forgotten snapshots used), maybe prune again 10 min later
+    // meanwhile: forget, prune (marks what only the forgotten snapshots used), maybe ANOTHER backup, maybe prune again 10 min later
     let forget: Vec<_> = if fp.forget_all { live.drain(..).collect() } else { vec![live.pop().unwrap()] };
-    let ids: Vec<_> = forget.iter().map(|l| l.0.id).collect();
+    let mut ids: Vec<_> = forget.iter().map(|l| l.0.id).collect();
+    // staged: the newest snapshot now, the others between the two prunes
+    let staged = fp.staged_forget && fp.forget_all && fp.prunes == 2 && ids.len() >= 2;
+    let ids_later: Vec<_> = if staged { ids.drain(..ids.len() - 1).collect() } else { vec![] };
     let t1 = now + if fp.old_packs { KD + 3600 } else { 3600 };
+    let mut notes: Vec<&'static str> = vec![];
+    // files written between the prunes may be replaced by the second prune: keep their content for the trace abstraction
+    let mut mid2 = mid.clone();
+    let mut mid_snap = None;
     let b_res = (|| -> RusticResult<()> {
         h.open()?.delete_snapshots(&ids)?;
-        prune_at_with(&h, t1, fp.no_resize)?;
+        _ = prune_at_with(&h, t1, fp.no_resize)?;
+        if fp.mid_backup {
+            // another client: different content, its own (small) index file and snapshot
+            let src = other_source(seed);
+            let snap = do_backup(&h, &src)?;
+            mid_snap = Some((snap, src));
+        }
+        mid2 = h.be.store();
         if fp.prunes == 2 {
-            prune_at_with(&h, t1 + 600, fp.no_resize)?;
+            if staged {
+                h.open()?.delete_snapshots(&ids_later)?;
+                notes.push("forget-staged-over-the-two-prunes");
+            }
+            let marking = marking_index_files(&h);
+            let m = prune_at_with(&h, t1 + 600, fp.no_resize)?;
+            let st = h.be.store();
+            if m.keep > 0 {
+                notes.push("prune2.keeps-marked");
+                // the index file(s) listing the still-marked packs: replaced (rewritten) or left alone by the second prune
+                let gone = !marking.is_empty() && marking.iter().all(|id| !st.contains_key(&(repo::ft_idx(rustic_core::repofile::FileType::Index), *id)));
+                notes.push(if gone { "prune2.keeps-marked.REWRITES-their-index-file" } else { "prune2.keeps-marked.leaves-their-index-file" });
+            }
         }
         Ok(())
     })();
     _ = ga.resume.send(());
     let a_out = ga.th.join().map_err(|_| "oracle-fail:actor-a-panicked".to_string())?;
     b_res.map_err(|e| format!("oracle-fail:prune-{}", errkind(&e)))?;
+    if let Some(l) = mid_snap {
+        live.push(l);
+    }
     if let Out::Snap(s, src) = a_out? {
         live.push((s, src));
     }
     let n_a = ga.own.load(Ordering::SeqCst);
     let log_run = h.be.log();
     let after_run = h.be.store();
-    // follow-up prune one hour later, then the repository must be completely healthy
+    // follow-up prune one hour later — or keep-delete + one hour later: the marks it meets are then older than keep-delete,
+    // and what the snapshots need must be recovered all the same — then the repository must be completely healthy
     h.be.clear_log();
+    let t_last = if fp.prunes == 2 { t1 + 600 } else { t1 };
+    let t_follow = if fp.late_followup { t_last + KD + 3600 } else { t1 + 4200 };
     let oracle = (|| -> Result<(), String> {
-        prune_at_with(&h, t1 + 4200, fp.no_resize).map_err(|e| format!("oracle-fail:followup-prune-{}", errkind(&e)))?;
+        let m = prune_at_with(&h, t_follow, fp.no_resize).map_err(|e| format!("oracle-fail:followup-prune-{}", errkind(&e)))?;
+        if m.remove > 0 {
+            notes.push("followup.removes-unneeded-marked-packs");
+        }
+        if m.recover > 0 {
+            notes.push(if fp.late_followup { "followup.recovers.marks-OLDER-than-keep-delete" } else { "followup.recovers.marks-young" });
+        }
         match check_errors_retry(&h, true) {
             Some(0) => {}
             Some(_) => return Err("oracle-fail:check-errors-after-followup".into()),
@@ -339,6 +426,15 @@ fn scenario_fp(seed: u64, k: usize, fp: Fp, mode: Mode) -> Result<Run, String> {
             let mut got = repo::read_back(&r, s).map_err(|_| "oracle-fail:snapshot-unreadable-after-followup".to_string())?;
             got.retain(|e| e.path != b"src");
             if got != repo::expected(src) {
+                if std::env::var("C10_DEBUG").is_ok() {
+                    let exp = repo::expected(src);
+                    eprintln!("DIFF snapshot {} of {}: got {} entries, expected {}", s.id, live.len(), got.len(), exp.len());
+                    for (a, b) in got.iter().zip(exp.iter()) {
+                        if a != b {
+                            eprintln!(" got {:?} {} {:?} {:?} {:?}\n exp {:?} {} {:?} {:?} {:?}", String::from_utf8_lossy(&a.path), a.kind, a.content.as_ref().map(Vec::len), a.mode, a.mtime_s, String::from_utf8_lossy(&b.path), b.kind, b.content.as_ref().map(Vec::len), b.mode, b.mtime_s);
+                        }
+                    }
+                }
                 return Err("oracle-fail:snapshot-differs-after-followup".into());
             }
         }
@@ -349,15 +445,15 @@ fn scenario_fp(seed: u64, k: usize, fp: Fp, mode: Mode) -> Result<Run, String> {
         if mode == Mode::Exec {
             oracle?;
         }
-        return Ok(Run { pre: vec![], run: vec![], follow: vec![], n_a, n_b: 0 });
+        return Ok(Run { pre: vec![], run: vec![], follow: vec![], n_a, n_b: 0, notes });
     }
-    let after_all = union(&union(&mid, &after_run), &h.be.store());
+    let after_all = union(&union(&union(&mid, &mid2), &after_run), &h.be.store());
     let mut log = log_run.clone();
     log.extend(log_follow.iter().cloned());
     let n_run = log_run.iter().filter(|o| o.applied).count();
     let (p, mut toks) = abstract_tokens(&h, &before, &after_all, &log)?;
     let follow = toks.split_off(n_run);
-    Ok(Run { pre: p, run: toks, follow, n_a, n_b: 0 })
+    Ok(Run { pre: p, run: toks, follow, n_a, n_b: 0, notes })
 }
 
 /// Replay of theorem `slow_prune_can_lose` on the real code, sequentially, with injected plan times:
@@ -443,15 +539,30 @@ pub fn exec(toks: &[&str]) -> String {
 }
 
 /// the `bfp` family: every combination of (what the backup adds) × (one or two prunes) × (forget one / all) × (old / young
-/// packs), `n_snaps` and `no_resize` by seed; every park position k.  thorough: four rounds.
+/// packs), `n_snaps` and `no_resize` by seed; every park position k.  The two further dimensions are SAMPLED so that the case
+/// count stays (two random bits per round decide which half): `late_followup` on exactly half of the 24 combinations (both
+/// values for every value of every other dimension), `mid_backup` on half of the 12 two-prune combinations (all three `a_new`,
+/// both `forget`, both ages; with both values of `late_followup`) — so every round, whatever the seed, holds ≥ 12 histories
+/// whose follow-up prune meets marks older than keep-delete and ≥ 6 in which a backup between two prunes makes the second
+/// prune rewrite the index file of the still-marked packs.  Where a two-prune history without such a backup forgets ALL of ≥ 2
+/// snapshots the forget is staged over the two prunes (`staged_forget`: the second prune marks more packs and so rewrites the
+/// index file of the packs the first one marked, too).  thorough: four rounds = the four choices of the two bits, and
+/// `mid_backup` on one-prune histories as well (the other backup runs after the only prune, before the parked backup resumes).
 fn generate_fp(thorough: bool, rng: &mut Rng, ops: &mut Vec<String>, stats: &mut Stats) {
-    for _ in 0..if thorough { 4 } else { 1 } {
+    for round in 0..if thorough { 4u64 } else { 1 } {
+        let (r_late, r_mid) = if thorough { (round % 2, round / 2) } else { (rng.below(2), rng.below(2)) };
         for a_new in 0..3u64 {
             for prunes in 1..=2u64 {
                 for forget_all in [false, true] {
                     for old_packs in [false, true] {
                         let seed = rng.below(1_000_000);
-                        let fp = Fp { n_snaps: 1 + rng.below(3), forget_all, a_new, prunes, old_packs, no_resize: rng.below(2) == 1 };
+                        let late_followup = (a_new + prunes + u64::from(forget_all) + u64::from(old_packs) + r_late) % 2 == 1;
+                        let mid_backup = (prunes == 2 || thorough) && (a_new + u64::from(forget_all) + r_mid) % 2 == 1;
+                        let n_snaps = 1 + rng.below(3);
+                        // where it applies (forget all of ≥ 2 snapshots, two prunes) the forget is staged over the two prunes in the
+                        // histories WITHOUT a backup between the prunes (the other way to make prune 2 rewrite the marked packs' index file)
+                        let staged_forget = forget_all && prunes == 2 && n_snaps >= 2 && !mid_backup;
+                        let fp = Fp { n_snaps, forget_all, a_new, prunes, old_packs, no_resize: rng.below(2) == 1, late_followup, mid_backup, staged_forget };
                         let code = fp.code();
                         let n_a = guarded(move || match scenario_fp(seed, usize::MAX, fp, Mode::Count) {
                             Ok(r) => r.n_a.to_string(),
@@ -465,13 +576,24 @@ fn generate_fp(thorough: bool, rng: &mut Rng, ops: &mut Vec<String>, stats: &mut
                             let line = guarded(move || match scenario_fp(seed, k, fp, Mode::Trace) {
                                 Ok(r) => {
                                     let jn = |v: &[String]| if v.is_empty() { "-".to_string() } else { v.join(";") };
-                                    format!("c10 mon bfp {spec} {} {} {}", jn(&r.pre), jn(&r.run), jn(&r.follow))
+                                    format!("c10 mon bfp {spec} {} {} {} #{}", jn(&r.pre), jn(&r.run), jn(&r.follow), r.notes.join(","))
                                 }
                                 Err(e) => format!("c10 mon bfp {spec} - X{} -", e.split_whitespace().next().unwrap_or("?")),
                             });
-                            let line = if line.starts_with("c10 ") { line } else { format!("c10 mon bfp {spec2} - X{} -", line.split_whitespace().next().unwrap_or("?")) };
+                            let mut line = if line.starts_with("c10 ") { line } else { format!("c10 mon bfp {spec2} - X{} -", line.split_whitespace().next().unwrap_or("?")) };
+                            // what the history really contained (not part of the op line)
+                            if let Some((l, notes)) = line.clone().rsplit_once(" #") {
+                                for n in notes.split(',').filter(|n| !n.is_empty()) {
+                                    stats.hit(format!("bfp.{n}"));
+                                }
+                                line = l.to_string();
+                            }
                             stats.hit("kind.bfp");
                             stats.hit(format!("bfp.adds{a_new}.prunes{prunes}.forget{}.{}", if forget_all { "all" } else { "one" }, if old_packs { "old" } else { "young" }));
+                            stats.hit(format!("bfp.followup.{}", if late_followup { "keep-delete+1h-after-the-marking" } else { "1h-after-the-marking" }));
+                            if mid_backup {
+                                stats.hit("bfp.backup-between-the-two-prunes");
+                            }
                             ops.push(line);
                         }
                     }
